@@ -18,10 +18,15 @@ Exprs(depth) == UNION {{cs \o <<l>> : cs \in [1..n -> Ctors], l \in Leaves} : n 
 Leaf(e) == e[Len(e)]
 
 Modes == {"req", "opt", "def", "optdef"}
+\* the class of a default literal: an ordinary one; an extreme one (type minima, escapes and non-ASCII text, bytes >= 0x80
+\* in bytes / fixed, the last enum symbol, the last union member, two-entry containers); an empty container
+Lits == {"plain", "extreme", "empty"}
 Positions == {"field", "included", "member", "actparam", "actret", "finderparam", "findermeta", "entity"}
 
 \* what Rest.li / Pegasus allow where
-WellFormed(e, m, pos) ==
+WellFormed(e, m, pos, lit) ==
+  /\ m \notin {"def", "optdef"} => lit = "plain"                    \* no default, no literal
+  /\ lit = "empty" => Len(e) > 1                                    \* only containers can be empty
   /\ Leaf(e) = "raw" => (pos = "field" /\ m \in {"req", "opt"})       \* untyped records only as plain record fields
   /\ pos = "member" => (m = "req" /\ e # <<"union">> /\ e # <<"o_union">>)   \* no union directly inside a union
   /\ pos \in {"actret", "findermeta", "entity"} => m = "req"
@@ -29,7 +34,7 @@ WellFormed(e, m, pos) ==
   /\ pos = "finderparam" => m \in {"req", "opt", "def"}
   /\ pos = "actparam" => m \in {"req", "opt", "def"}
 
-Items(depth) == {it \in [e : Exprs(depth), m : Modes, pos : Positions] : WellFormed(it.e, it.m, it.pos)}
+Items(depth) == {it \in [e : Exprs(depth), m : Modes, pos : Positions, lit : Lits] : WellFormed(it.e, it.m, it.pos, it.lit)}
 
 \* ------------------------------------------------------------------------------------------------ resources
 Kinds == {"collection", "simple", "actionsSet", "subCollection", "subSimple"}
